@@ -139,10 +139,16 @@ def gen_world(rng, profile):
     sp = [x for x in W.scalar_paths(scn) if not x[1].get("is_size")]
     ops = []
     opaths = [x for x in W.object_paths(scn) if x[1] is not None]
+    # lists of objects of fixed size (their path and class): the user may refill them between calls
+    fixed_lists = [list(p) for p, cn in W.object_paths(scn) if cn is None and
+                   not any(l.get("randsz") for cd in classes.values() for l in cd.get("olists", []) if l["name"] == p[-1])]
     ninst = 1
     for _ in range(r.randint(2, profile.get("nops", 7))):
         x = r.random()
         inst = r.randrange(ninst)
+        if fixed_lists and r.random() < 0.12:
+            ops.append({"op": "relist", "path": r.choice(fixed_lists), "inst": inst})
+            continue
         if r.random() < profile.get("new", 0.12) and ninst < 3:
             ops.append({"op": "new"})
             ninst += 1
